@@ -291,6 +291,78 @@ type Tags struct {
 	P struct{} `json:",omitempty"`
 }
 
+// ---- anonymous embedding chains: fields promoted through 1..8 levels (value and pointer embedding mixed), innermost structs with
+// 2-4 fields of different kinds, name conflicts at different depths (the dominant-field rule) and at the same depth (tag wins / annihilation)
+type C0 struct {
+	X int
+	Y string
+	Z bool
+}
+type Q2 struct {
+	P int8
+	Q []byte
+}
+type C1 struct {
+	C0
+	*Q2
+	A1 int
+}
+type C2 struct {
+	*C1
+	A2 string
+}
+type C3 struct { // X Y Z P Q arrive through three levels
+	C2
+	A int
+}
+type C4 struct {
+	*C3
+	A4 float64
+}
+type C5 struct {
+	C4
+	X uint8 // shadows the X five levels down
+}
+type C6 struct {
+	C5
+	A6 bool
+	R4
+}
+type R4 struct {
+	K uint16
+	L float32
+	M string
+	N *int
+}
+type C7 struct {
+	*C6
+	Y int `json:"Y"` // tagged, depth 0: dominates
+}
+type C8 struct {
+	C7
+	A8 string
+}
+type KIn struct {
+	X string `json:"X"` // same depth as C0.X below KOut: the tagged one wins
+	W int
+}
+type KMid struct{ KIn }
+type KMid2 struct{ KMid }
+type KOut struct {
+	C3
+	KMid2
+}
+type KIn2 struct {
+	X string // same depth as C0.X below KOutB, both untagged: both disappear
+	V int
+}
+type KMidB struct{ *KIn2 }
+type KMidB2 struct{ KMidB }
+type KOutB struct {
+	C3
+	KMidB2
+}
+
 // Catalogue: id -> type. The ids are part of the wire format of the model (named N).
 var Catalogue = []reflect.Type{
 	0:  reflect.TypeOf(json.Number("")),
@@ -344,6 +416,25 @@ var Catalogue = []reflect.Type{
 	48: reflect.TypeOf(Big50x{}),
 	49: reflect.TypeOf(Leaf{}),
 	50: reflect.TypeOf(N3{}),
+	51: reflect.TypeOf(C0{}),
+	52: reflect.TypeOf(Q2{}),
+	53: reflect.TypeOf(C1{}),
+	54: reflect.TypeOf(C2{}),
+	55: reflect.TypeOf(C3{}),
+	56: reflect.TypeOf(C4{}),
+	57: reflect.TypeOf(C5{}),
+	58: reflect.TypeOf(R4{}),
+	59: reflect.TypeOf(C6{}),
+	60: reflect.TypeOf(C7{}),
+	61: reflect.TypeOf(C8{}),
+	62: reflect.TypeOf(KIn{}),
+	63: reflect.TypeOf(KMid{}),
+	64: reflect.TypeOf(KMid2{}),
+	65: reflect.TypeOf(KOut{}),
+	66: reflect.TypeOf(KIn2{}),
+	67: reflect.TypeOf(KMidB{}),
+	68: reflect.TypeOf(KMidB2{}),
+	69: reflect.TypeOf(KOutB{}),
 }
 
 var catID = map[reflect.Type]int{}
